@@ -41,7 +41,7 @@ class Worker:
     def __init__(self, prop, devices, idx):
         self.devices = devices
         logdir = OUT / ".logs"
-        logdir.mkdir(exist_ok=True)
+        logdir.mkdir(parents=True, exist_ok=True)
         self.errpath = logdir / f"{prop}-d{devices}-w{idx}.err"
         self.err = open(self.errpath, "w")
         self.p = subprocess.Popen([PY, "-u", "-m", "mdpv.worker", prop], stdin=subprocess.PIPE,
@@ -304,7 +304,7 @@ def main(argv=None):
         "violations": len(confirmed),
     }
     edir = OUT / "evidence"
-    edir.mkdir(exist_ok=True)
+    edir.mkdir(parents=True, exist_ok=True)
     (edir / f"{prop}.json").write_text(json.dumps(ev, indent=1))
     print(f"{prop} tier={tier}: jobs={len(jobs)} obligations={agg['obligations']} discharged={agg['discharged']} "
           f"inconclusive={len(inconclusive)} cex={len(violations)} confirmed={len(confirmed)} "
